@@ -69,6 +69,11 @@ func (Engine) Describe(prop string) core.Description {
 		d.Probes = []string{"colliding-concatenation-pair", "underscore-colliding-relationships", "two-way-pair", "one-way-rel", "same-type-pair", "rels-after-removal", "rels-peeked-while-building", "pair-added-with-AddTwoWayRel"}
 	}
 
+	if prop == "C15" {
+		d.Rule += "; now and then the caller re-keys a type's Rels map (keys other than the relationship names); the model is re-read from the schema before each query"
+		d.Probes = append(d.Probes, "state-rels-map-keyed-by-other-than-name")
+	}
+
 	return d
 }
 
@@ -236,6 +241,43 @@ func (h *hist) step() (v *core.Violation, aborted bool) {
 		m.resync(s)
 		h.steps++
 		h.bulked = true
+
+		return nil, false
+	}
+
+	if h.prop == "C15" && len(s.Types) > 0 && t.Bool(1, 12) {
+		// The caller re-keys the field maps of one type: Type.Attrs and Type.Rels are
+		// exported maps and a relationship is what its Rel value says, whatever key it
+		// is stored under (types written as literals or decoded from a file have their
+		// own key conventions; the repository's own TestSchemaCheck stores one under
+		// another key). The set of relationships, and so Check's verdict, is the same.
+		k := t.Draw(len(s.Types))
+		style := t.Draw(3)
+		rekeyed := map[string]jsonapi.Rel{}
+
+		for i, key := range sortedRelKeys(s.Types[k].Rels) {
+			nk := ""
+
+			switch style {
+			case 0:
+				nk = "Field" + key
+			case 1:
+				nk = fmt.Sprintf("%03d", i)
+			default:
+				nk = s.Types[k].Name + "." + key
+			}
+
+			rekeyed[nk] = s.Types[k].Rels[key]
+		}
+
+		if s.Types[k].Rels != nil {
+			s.Types[k].Rels = rekeyed
+		}
+
+		t.Logf("caller re-keys the Rels map of type %q (style %d, %d relationships)", s.Types[k].Name, style, len(rekeyed))
+		h.st.Inc("probe:state-rels-map-keyed-by-other-than-name")
+		m.resync(s)
+		h.steps++
 
 		return nil, false
 	}
@@ -600,7 +642,6 @@ func namePool(t *core.Tape) []string {
 		p = append(p, "a"+sep, sep+"a", sep, "b"+sep, "\ta\n")
 	}
 
-
 	return p
 }
 
@@ -728,6 +769,9 @@ func (e Engine) Run(prop string, t *core.Tape, st *core.Stats) *core.Violation {
 
 // checkC15 calls Check() on the current state under a fresh map order.
 func (h *hist) checkC15() (*core.Violation, bool) {
+	// Check is judged on the schema as it is now; how it got there is C14's matter
+	h.m.resync(h.s)
+
 	before := content(h.s)
 	strict, loose := offending(h.m)
 	nrels := 0
